@@ -209,6 +209,16 @@ class Sender:
             else:
                 break
 
+    def _abortable_error(self, exc):
+        """Move the transaction to ABORTABLE_ERROR. Batches waiting for a
+        partition that could not be added must not be produced: fail them
+        before the partitions are un-muted."""
+        txn_manager = self._txn_manager
+        self._message_accumulator.fail_partitions(
+            txn_manager.partitions_to_add(), exc
+        )
+        txn_manager.error_transaction(exc)
+
     def _coordinator_dead(self, coordinator_type):
         self._coordinators.pop(coordinator_type, None)
 
@@ -345,7 +355,7 @@ class Sender:
         try:
             node_id = await self._find_coordinator(CoordinationType.GROUP, group_id)
         except GroupAuthorizationFailedError as exc:
-            self._txn_manager.error_transaction(exc)
+            self._abortable_error(exc)
             return
         log.debug(
             "Sending offset-commit request with %s for group %s to %s",
@@ -544,7 +554,7 @@ class AddPartitionsToTxnHandler(BaseHandler):
                     )
                     raise error_type()
         if unauthorized_topics:
-            txn_manager.error_transaction(
+            self._sender._abortable_error(
                 TopicAuthorizationFailedError(unauthorized_topics)
             )
         return None
@@ -599,7 +609,7 @@ class AddOffsetsToTxnHandler(BaseHandler):
         elif error_type is TransactionalIdAuthorizationFailed:
             raise error_type(txn_manager.transactional_id)
         elif error_type is GroupAuthorizationFailedError:
-            txn_manager.error_transaction(error_type(self._group_id))
+            self._sender._abortable_error(error_type(self._group_id))
             return None
         else:
             log.error(
@@ -678,7 +688,7 @@ class TxnOffsetCommitHandler(BaseHandler):
                     raise error_type(txn_manager.transactional_id)
                 elif error_type is GroupAuthorizationFailedError:
                     exc = error_type(self._group_id)
-                    txn_manager.error_transaction(exc)
+                    self._sender._abortable_error(exc)
                     return None
                 else:
                     log.error(
